@@ -178,15 +178,16 @@ Proof. intros []; simpl; auto. Qed.
 
 (** the nested sweep covers every tuple drawn from the enumerations (F abstract) *)
 Lemma sweepF_sound : forall F, sweepF F = true ->
-  forall drv cr de di ds fn se rd af dc a b c d,
-  In drv all_drv -> In cr all_parse -> In de all_parse -> In di all_parse -> In ds all_parse ->
+  forall drv rc cr de di ds fn se rd af dc a b c d,
+  In drv all_drv -> In rc all_parse -> In cr all_parse -> In de all_parse -> In di all_parse -> In ds all_parse ->
   In fn all_raise -> In se all_raise -> In rd all_oexk -> In af all_bool -> In dc all_bool ->
   In a all_raise -> In b all_raise -> In c all_raise -> In d all_raise ->
-  F drv cr de di ds fn se rd af dc a b c d = true.
+  F drv rc cr de di ds fn se rd af dc a b c d = true.
 Proof.
-  intros F S drv cr de di ds fn se rd af dc a b c d I0 I1 I2 I3 I4 I5 I6 I7 I8 I9 Ia Ib Ic Id.
+  intros F S drv rc cr de di ds fn se rd af dc a b c d I0 Irc I1 I2 I3 I4 I5 I6 I7 I8 I9 Ia Ib Ic Id.
   unfold sweepF in S.
   rewrite forallb_forall in S; specialize (S _ I0).
+  rewrite forallb_forall in S; specialize (S _ Irc).
   rewrite forallb_forall in S; specialize (S _ I1).
   rewrite forallb_forall in S; specialize (S _ I2).
   rewrite forallb_forall in S; specialize (S _ I3).
@@ -209,13 +210,13 @@ Lemma sweep_sound : forall drv sc a b c d,
   check_one drv sc a b c d = true.
 Proof.
   intros drv sc a b c d Hadm Ha Hb Hc Hd.
-  destruct sc as [cr de di ds fn se rd af dc op].
+  destruct sc as [rc cr de di ds fn se rd af dc op].
   assert (Hadm' := Hadm). unfold scen_adm in Hadm'.
-  cbn [sc_create sc_decomp sc_dispatch sc_deser sc_fn sc_ser sc_opaque] in Hadm'.
+  cbn [sc_recon sc_create sc_decomp sc_dispatch sc_deser sc_fn sc_ser sc_opaque] in Hadm'.
   repeat rewrite andb_true_iff in Hadm'.
-  destruct Hadm' as (((((((H1 & H2) & H3) & H4) & H5) & H6) & H7) & H8).
+  destruct Hadm' as ((((((((H0 & H1) & H2) & H3) & H4) & H5) & H6) & H7) & H8).
   apply negb_true_iff in H8; subst op.
-  change (chk drv cr de di ds fn se rd af dc a b c d = true).
+  change (chk drv rc cr de di ds fn se rd af dc a b c d = true).
   apply (sweepF_sound chk sweep_true);
     auto using all_drv_in, parse_adm_in, raise_adm_in, all_oexk_in, all_bool_in.
 Qed.
@@ -283,13 +284,13 @@ Lemma sweep_sb_true : sweepF chk_sb = true.
 Proof. vm_cast_no_check (eq_refl true). Qed.
 
 Lemma scen_adm_true_parts : forall sc, scen_adm true sc = true ->
-  In (sc_create sc) all_parse /\ In (sc_decomp sc) all_parse /\ In (sc_dispatch sc) all_parse
+  In (sc_recon sc) all_parse /\ In (sc_create sc) all_parse /\ In (sc_decomp sc) all_parse /\ In (sc_dispatch sc) all_parse
   /\ In (sc_deser sc) all_parse /\ In (sc_fn sc) all_raise /\ In (sc_ser sc) all_raise /\ sc_opaque sc = false.
 Proof.
   intros sc H. unfold scen_adm in H. repeat rewrite andb_true_iff in H.
-  destruct H as (((((((H1 & H2) & H3) & H4) & H5) & H6) & H7) & H8).
+  destruct H as ((((((((H0 & H1) & H2) & H3) & H4) & H5) & H6) & H7) & H8).
   apply negb_true_iff in H8.
-  auto 10 using parse_adm_in, raise_adm_in.
+  auto 12 using parse_adm_in, raise_adm_in.
 Qed.
 
 Theorem sb_unserialisable_fire : forall sc fire k,
@@ -301,13 +302,13 @@ Proof.
   pose proof (quiet_table fire _ Hq (drivers_sites_ok DServerBase)) as T.
   rewrite (run_strip (verdict DServerBase sc) fire _ sc _ (verdict_strip _ sc) T).
   rewrite (run_strip (escape_shape k) fire _ sc _ (escape_shape_strip k) T).
-  destruct (scen_adm_true_parts sc Hadm) as (I1 & I2 & I3 & I4 & I5 & I6 & Hop).
-  destruct sc as [cr de di ds fn se rd af dc op].
-  cbn [sc_create sc_decomp sc_dispatch sc_deser sc_fn sc_ser sc_opaque] in *. subst op se.
-  pose proof (sweepF_sound chk_sb sweep_sb_true DServerBase cr de di ds fn (Some k) rd af dc
+  destruct (scen_adm_true_parts sc Hadm) as (I0 & I1 & I2 & I3 & I4 & I5 & I6 & Hop).
+  destruct sc as [rc cr de di ds fn se rd af dc op].
+  cbn [sc_recon sc_create sc_decomp sc_dispatch sc_deser sc_fn sc_ser sc_opaque] in *. subst op se.
+  pose proof (sweepF_sound chk_sb sweep_sb_true DServerBase rc cr de di ds fn (Some k) rd af dc
                 (snd (fire TCtx Ecall true)) (snd (fire TCtx Ecall false))
                 (snd (fire TCtx Eret_obj true)) (snd (fire TCtx Eret_obj false))
-                (all_drv_in _) I1 I2 I3 I4 I5 I6 (all_oexk_in _) (all_bool_in _) (all_bool_in _)
+                (all_drv_in _) I0 I1 I2 I3 I4 I5 I6 (all_oexk_in _) (all_bool_in _) (all_bool_in _)
                 (quiet_raise fire Hq _ _ _) (quiet_raise fire Hq _ _ _)
                 (quiet_raise fire Hq _ _ _) (quiet_raise fire Hq _ _ _)) as C.
   unfold chk_sb, check_sb in C. rewrite Hadm in C. cbn [sc_ser] in C.
@@ -322,7 +323,7 @@ Proof. intros; apply sb_unserialisable_fire; auto using quiet_world. Qed.
 
 (** the full statement for ServerBase (serialisation failures included) is false *)
 Definition sc_nul : scen :=
-  {| sc_create := None; sc_decomp := None; sc_dispatch := None; sc_deser := None; sc_fn := None;
+  {| sc_recon := None; sc_create := None; sc_decomp := None; sc_dispatch := None; sc_deser := None; sc_fn := None;
      sc_ser := Some KOther; sc_redirect := None; sc_after_on_fault := true; sc_doc_early := false;
      sc_opaque := false |}.
 Theorem sb_unserialisable_refuted :
